@@ -73,57 +73,80 @@ theorem pickBest_spec : ∀ {l : List (Path × Nat)} {x : Path × Nat}, pickBest
 
 /-! ### scanDir -/
 
-theorem scanDir_found {ns : Bool} {bd : Path} {last : Name} {nlev : Nat} {g : Path}
+theorem startOf_of_ne {bd : Path} {last : Name} (h : last ≠ sInit) (b : Bool) : startOf bd last b = bd := by
+  simp [startOf, h]
+
+theorem verifyAt_of_ne {bd : Path} {last : Name} {nlev : Nat} (h : last ≠ sInit) (b : Bool) :
+    verifyAt fs bd last nlev b = verifyFrom fs bd.reverse nlev := by
+  simp [verifyAt, startOf_of_ne h]
+
+theorem levelOf_of_ne {bd : Path} {last : Name} {nlev : Nat} (h : last ≠ sInit) (p : Path) :
+    levelOf fs bd last nlev p = initLevel fs bd nlev := by
+  simp [levelOf, startOf_of_ne h]
+
+theorem mem_scanCands {bd : Path} {last : Name} {c : Path × Bool} (h : c ∈ scanCands bd last) :
+    c.1 ∈ pkgFiles bd last ++ modFiles bd last := by
+  simp only [scanCands, List.mem_append, List.mem_map] at h ⊢
+  rcases h with ⟨p, hp, rfl⟩ | ⟨p, hp, rfl⟩
+  · exact Or.inl hp
+  · exact Or.inr hp
+
+theorem scanCands_of_mem {bd : Path} {last : Name} {p : Path} (h : p ∈ pkgFiles bd last ++ modFiles bd last) :
+    ∃ b, (p, b) ∈ scanCands bd last := by
+  simp only [scanCands, List.mem_append, List.mem_map] at h ⊢
+  rcases h with h | h
+  · exact ⟨false, Or.inl ⟨p, h, rfl⟩⟩
+  · exact ⟨true, Or.inr ⟨p, h, rfl⟩⟩
+
+theorem scanDir_found {ns : Bool} {bd : Path} {last : Name} {nlev : Nat} {g : Path} (hl : last ≠ sInit)
     (h : scanDir fs ns bd last nlev = .found g) :
     verifyFrom fs bd.reverse nlev = true ∧ g ∈ pkgFiles bd last ++ modFiles bd last ∧ fs.isFile g = true := by
   unfold scanDir at h
   split at h
-  · next hv =>
-    split at h
-    · next p rest hf =>
-      cases h
-      have : g ∈ (pkgFiles bd last ++ modFiles bd last).filter fs.isFile := by rw [hf]; simp
-      rw [List.mem_filter] at this
-      exact ⟨hv, this.1, this.2⟩
-    · cases h
+  · next c hc =>
+    simp only [Scan.found.injEq] at h
+    subst h
+    have hp := List.find?_some hc
+    have hm := List.mem_of_find?_eq_some hc
+    simp only [Bool.and_eq_true, verifyAt_of_ne fs hl] at hp
+    exact ⟨hp.2, mem_scanCands hm, hp.1⟩
   · cases h
 
 theorem scanDir_misses {ns : Bool} {bd : Path} {last : Name} {nlev : Nat} {l : List Path}
     (h : scanDir fs ns bd last nlev = .misses l) :
-    ∀ p ∈ l, (p ∈ pkgFiles bd last ++ modFiles bd last ∧ fs.isFile p = true ∧ verifyFrom fs bd.reverse nlev = false)
-      ∨ p ∈ nsDir fs ns bd last := by
+    ∀ p ∈ l, (p ∈ pkgFiles bd last ++ modFiles bd last ∧ fs.isFile p = true) ∨ p ∈ nsDir fs ns bd last := by
   unfold scanDir at h
   split at h
-  · split at h
-    · cases h
-    · cases h
-      intro p hp; exact Or.inr hp
-  · next hv =>
-    cases h
+  · cases h
+  · simp only [Scan.misses.injEq] at h
+    subst h
     intro p hp
     simp only [List.mem_append, List.mem_filter] at hp
-    have hv' : verifyFrom fs bd.reverse nlev = false := by simpa using hv
     rcases hp with (hp | hp) | hp
-    · exact Or.inl ⟨by simp [hp.1], hp.2, hv'⟩
+    · exact Or.inl ⟨by simp [hp.1], hp.2⟩
     · exact Or.inr hp
-    · exact Or.inl ⟨by simp [hp.1], hp.2, hv'⟩
+    · exact Or.inl ⟨by simp [hp.1], hp.2⟩
 
-theorem scanDir_of_verified {ns : Bool} {bd : Path} {last : Name} {nlev : Nat} {p : Path}
+theorem scanDir_of_verified {ns : Bool} {bd : Path} {last : Name} {nlev : Nat} {p : Path} (hl : last ≠ sInit)
     (hv : verifyFrom fs bd.reverse nlev = true) (hp : p ∈ pkgFiles bd last ++ modFiles bd last)
     (hf : fs.isFile p = true) : ∃ g, scanDir fs ns bd last nlev = .found g := by
   unfold scanDir
-  simp only [hv, if_true]
-  have : p ∈ (pkgFiles bd last ++ modFiles bd last).filter fs.isFile := by
-    rw [List.mem_filter]; exact ⟨hp, hf⟩
-  cases hl : (pkgFiles bd last ++ modFiles bd last).filter fs.isFile with
-  | nil => rw [hl] at this; cases this
-  | cons q rest => exact ⟨q, rfl⟩
+  obtain ⟨b, hb⟩ := scanCands_of_mem hp
+  cases hfind : (scanCands bd last).find? (fun c => fs.isFile c.1 && verifyAt fs bd last nlev c.2) with
+  | some c => exact ⟨c.1, rfl⟩
+  | none =>
+    have := List.find?_eq_none.mp hfind (p, b) hb
+    simp [hf, verifyAt_of_ne fs hl, hv] at this
 
-theorem scanDir_of_unverified {ns : Bool} {bd : Path} {last : Name} {nlev : Nat} {p : Path}
+theorem scanDir_of_unverified {ns : Bool} {bd : Path} {last : Name} {nlev : Nat} {p : Path} (hl : last ≠ sInit)
     (hv : verifyFrom fs bd.reverse nlev = false) (hp : p ∈ pkgFiles bd last ++ modFiles bd last)
     (hf : fs.isFile p = true) : ∃ l, scanDir fs ns bd last nlev = .misses l ∧ p ∈ l := by
   unfold scanDir
-  simp only [hv]
+  have hnone : (scanCands bd last).find? (fun c => fs.isFile c.1 && verifyAt fs bd last nlev c.2) = none := by
+    apply List.find?_eq_none.mpr
+    intro c _
+    simp [verifyAt_of_ne fs hl, hv]
+  rw [hnone]
   refine ⟨_, rfl, ?_⟩
   simp only [List.mem_append, List.mem_filter] at hp ⊢
   rcases hp with hp | hp
@@ -138,7 +161,7 @@ def missesOf (ns : Bool) (last : Name) (nlev : Nat) : List (Path × Path) → Li
   | (bd, _) :: rest =>
     (match scanDir fs ns bd last nlev with
      | .found _ => []
-     | .misses l => l.map (fun p => (p, initLevel fs bd nlev))) ++ missesOf ns last nlev rest
+     | .misses l => l.map (fun p => (p, levelOf fs bd last nlev p))) ++ missesOf ns last nlev rest
 
 theorem findLoop_spec {ns : Bool} {last : Name} {nlev : Nat} : ∀ (cands : List (Path × Path)) (near : List (Path × Nat)) (g : Path),
     findLoop fs ns last nlev cands near = some g →
@@ -236,7 +259,7 @@ theorem findLoop_some_of_near {last : Name} {nlev : Nat} : ∀ (cands : List (Pa
 
 theorem mem_missesOf {ns : Bool} {last : Name} {nlev : Nat} : ∀ {cands : List (Path × Path)} {e : Path × Nat},
     e ∈ missesOf fs ns last nlev cands ↔
-      ∃ c ∈ cands, ∃ l, scanDir fs ns c.1 last nlev = .misses l ∧ e.1 ∈ l ∧ e.2 = initLevel fs c.1 nlev := by
+      ∃ c ∈ cands, ∃ l, scanDir fs ns c.1 last nlev = .misses l ∧ e.1 ∈ l ∧ e.2 = levelOf fs c.1 last nlev e.1 := by
   intro cands
   induction cands with
   | nil => intro e; simp [missesOf]
